@@ -26,3 +26,6 @@ func (s *Server[StateT]) VerifStep(ctx *Context[StateT]) error {
 	}
 	return s.handleCommand(op, ctx)
 }
+
+func protoReader(conn net.Conn) proto.Reader { return proto.Reader{Reader: conn} }
+func protoWriter(conn net.Conn) proto.Writer { return proto.Writer{Writer: conn} }
